@@ -48,6 +48,8 @@ def run_shards(work, module, shard_jobs, timeout=900, keep=False):
         for m in mm:
             m["shard"] = job["name"]
             m["file"] = path
+            if job.get("args") is not None:
+                m["args"] = job["args"]
         # samples + counting
         traces = 0
         first = None
